@@ -90,8 +90,8 @@ PROPS = {
         assumptions=["attribute lists are written without percent-encoding in the theorem; percent-encoded attribute names are F19 (known finding)"],
     ),
     "C02": dict(
-        groups=[("req", 1500, 100000)],
-        exact_lanes=["req"],
+        groups=[("req", 1500, 100000), ("paged", 300, 20000)],
+        exact_lanes=["req", "paged"],
         rule="sequences of 1-6 real operations (all 11 kinds, arbitrary DNs incl. non-ASCII and 127/128/129/300-byte strings, byte values, empty and multi-valued lists, "
              "0-3 controls with/without criticality and value, timeouts, search options with boundary limits, unparsable filters, AddNoValues rejections, unbind last) on one handle over the "
              "in-memory transport with a replying server; the bytes of every request are captured. non-trivial = distinct sequence that wrote at least one request",
